@@ -200,6 +200,11 @@ class Bicomplex(object):
 
     def __div__(self, other):  # python 2
         """elementwise division"""
+        if isinstance(other, Bicomplex):
+            # scale numerator and denominator first: the small parts of 1/other must not underflow
+            scale = np.maximum(np.abs(other.z1), np.abs(other.z2))
+            other = Bicomplex(other.z1 / scale, other.z2 / scale)
+            return Bicomplex(self.z1 / scale, self.z2 / scale) * other._inverse()
         return self * other ** -1  # np.exp(-np.log(other))
 
     __truediv__ = __div__  # python 3
